@@ -9,7 +9,7 @@ from lib.parts import run_parts, replay_parts
 
 PARTS = [("checks.wrappers", "run_part", {}),
          ("checks.ops_views", "run_part", {"prop": "C01"}),
-         ("checks.ops_algebra", "run_part", {"prop": "C01"}),
+         ("checks.ops_algebra", "run_part", {"as_pid": "C01"}),
          ("checks.kernels_scalar", "run_part", {"props_file": "Props/C01_scalar.v"})]
 
 
